@@ -16,7 +16,7 @@ LEVEL_NOTE = ("Trusted: the ~300-line ASGI stand-in for starlette and the stream
               "client and the real server code; virtual clock. Consecutive drops beyond max_reconnect_attempts are expected to end in ConnectionError.")
 DESIGN_REF = "§5 C17"
 RULE = "case = (event payloads, cursor, cut offsets); distinct = hash of the case; non-trivial = >=1 drop actually happened"
-REQUIRED_REACH = ["scenario", "drop_injected", "reconnected_ok", "cursor_mid_log", "unicode_payload", "cut_inside_data", "cut_inside_id", "over_limit_case", "slow_store", "drop_as_incomplete_chunked_body"]
+REQUIRED_REACH = ["scenario", "drop_injected", "reconnected_ok", "cursor_mid_log", "unicode_payload", "cut_inside_data", "cut_inside_id", "over_limit_case", "slow_store", "drop_as_incomplete_chunked_body", "drop_with_a_lagging_consumer"]
 ASSUMPTIONS = ["drops are cuts of the response body (httpx.ReadError); request-phase connect errors are not injected"]
 
 TEXTS = ["ok", "plain text", "ünï¢ödé ✓", "tab\tand \"quotes\"", "x" * 300, "line\\nescaped", "emoji 😀", "ls\u2028sep", "ps\u2029sep", "nel\u0085sep", "vt\x0bff\x0c", "a b", "c d", "e\u0085f", ""]
@@ -43,7 +43,10 @@ def gen_case(seed):
         cuts[pos:pos] = [-1] * k
     return {"seed": seed, "texts": texts, "gaps": gaps, "cursor": cursor, "cuts": cuts, "max_reconnect": rnd.choice([3, 3, 1, 5]),
             "store": rnd.choice(["memory", "sqlite"]), "late_connect": rnd.choice([0, 0, 2, 50]),
-            "store_latency": rnd.choice([None, None, None, 0.02, 0.1]), "drop_kinds": [rnd.choice(["reset", "reset", "fin"]) for _ in range(4)]}
+            "store_latency": rnd.choice([None, None, None, 0.02, 0.1]), "drop_kinds": [rnd.choice(["reset", "reset", "fin"]) for _ in range(4)],
+            # the consumer lags behind the connection: it starts iterating later, and / or does some awaiting per event, so received
+            # events wait unconsumed when the connection drops
+            "consume_delay": rnd.choice([0, 0, 0, 1, 20]), "per_event_delay": rnd.choice([0, 0, 0, 0.3, 2])}
 
 
 def _max_consecutive_refusals(cuts):
@@ -110,8 +113,15 @@ def run_one(case, acc):
         got = []
 
         async def consume():
+            if case.get("consume_delay"):
+                await asyncio.sleep(case["consume_delay"])
             async for ev in stream:
                 got.append((stream.last_sequence, ev.type, _i(ev.value)))
+                if case.get("per_event_delay"):
+                    await asyncio.sleep(case["per_event_delay"])
+
+        if (case.get("consume_delay") or case.get("per_event_delay")) and any(c is not None and c >= 0 for c in case["cuts"]):
+            acc.hit("drop_with_a_lagging_consumer")
 
         try:
             await asyncio.wait_for(consume(), timeout=500)
